@@ -127,7 +127,7 @@ def check_case(case, rec):
     if case.get("grouped"):
         # frames on which group_by was called earlier are frames too (the mark stays on the object)
         L.group_by(Lc[0][0])
-        R.group_by(Rc[0][0])
+        R.group_by(Rc[case.get("rkey_at", 0)][0])
     check_joins_on(L, R, Lc, Rc, by, case["joins"], rec, case)
 
 
@@ -314,6 +314,10 @@ def run_shard(shard, rec):
                         check_case(dict(case, grouped=True, poke=False), rec)
                         if shard["renamed"]:
                             check_case(dict(case, pair_form="list", poke=False), rec)
+                            # the right frame has an ORDINARY column named like the left key (listed after, and before, its own key)
+                            own = [["k", rkind, [alpha[-1 - (i % 2)] for i in range(len(rt))]]]
+                            check_case(dict(case, R=case["R"] + own, poke=False), rec)
+                            check_case(dict(case, R=own + case["R"], poke=False, rkey_at=1), rec)
     else:
         k1, k2 = shard["kinds"]
         a1, a2 = V.alphabet(k1, "key"), V.alphabet(k2, "key")
